@@ -1,0 +1,7 @@
+//go:build verif
+
+// Contracts for the deductive verifier in /verif (icsvc). Comment-only: this file contributes no code.
+
+package types
+
+//@ func AccumulateChanges pure
